@@ -62,6 +62,18 @@ def build_all(coq_targets=()):
         return res
 
 
+FJV_DBG = os.path.join(ROOT, "harness/target/dbgassert/fjv")
+
+
+def build_dbg():
+    """the harness once more with debug assertions and overflow checks on (profile dbgassert = release + both): what a
+    `cargo test` / debug build of an application executes.  Returns the binary path, or None when it does not build."""
+    with open(os.path.join(ROOT, ".build.lock"), "w") as lk:
+        fcntl.flock(lk, fcntl.LOCK_EX)
+        rc, out = sh("CARGO_NET_OFFLINE=true cargo build --profile dbgassert --offline", cwd=os.path.join(ROOT, "harness"), timeout=1800)
+        return FJV_DBG if rc == 0 and os.path.exists(FJV_DBG) else None
+
+
 # ---------------------------------------------------------------- proof audit
 FORBIDDEN = re.compile(r"\b(Admitted|admit|Axiom|Parameter|Conjecture|Unset Guard|bypass_check|type-in-type|"
                        r"Admit Obligations|impredicative-set)\b")
